@@ -135,6 +135,8 @@ def run_shard(shard, tier, acc):
         gw1, gw2 = garbage_words(1), garbage_words(2)
         for doc in docgen.iter_shard(tier, sh, purpose='prefix'):
             gw = gw2 if (len(doc.items) == 1 and tier == 'thorough') else gw1
+            if tier == 'thorough' and len(doc.items) >= 2 and len(doc.text) > 8:
+                gw = ['', 'a', '}', '\\', ' ']        # the largest documents get a reduced garbage set
             for sp in ('', ' ', '\n'):
                 # U may be followed by whitespace before the stray closer: that whitespace is content
                 # parsed before the error as well
